@@ -183,9 +183,21 @@ func c17(c *core.Ctx, r *core.Report) {
 		// every atomic field of the accumulator type
 		var fields []string
 		acc := c.Named(ppkg, "IterationDurations").Underlying().(*types.Struct)
-		for i := 0; i < acc.NumFields(); i++ {
-			fields = append(fields, acc.Field(i).Name())
+		var leaves func(st *types.Struct, depth int)
+		leaves = func(st *types.Struct, depth int) {
+			for i := 0; i < st.NumFields(); i++ {
+				f := st.Field(i)
+				// fields grouped into small structs of the package count by their own atomics
+				if n, isNamed := f.Type().(*types.Named); isNamed && n.Obj().Pkg() != nil && n.Obj().Pkg().Path() == progressPkg && depth < 3 {
+					if inner, isStruct := n.Underlying().(*types.Struct); isStruct {
+						leaves(inner, depth+1)
+						continue
+					}
+				}
+				fields = append(fields, f.Name())
+			}
 		}
+		leaves(acc, 0)
 		merged, cleared := map[string]bool{}, map[string]bool{}
 		for _, s := range durationAtomics(c) {
 			if s.Op == "Load" || len(s.Call.Common().Args) < 2 {
@@ -207,7 +219,7 @@ func c17(c *core.Ctx, r *core.Report) {
 				continue
 			}
 			sf := an.FieldOfAddr(src.Call.Args[0])
-			if sf == nil || an.D().Of(src.Call.Args[0].(*ssa.FieldAddr).X) == an.D().Of(s.Call.Common().Args[0].(*ssa.FieldAddr).X) {
+			if sf == nil || an.D().Of(accBase(src.Call.Args[0])) == an.D().Of(accBase(s.Call.Common().Args[0])) {
 				continue
 			}
 			key := s.Fn.Name() + "#" + s.Field.Name() + "←" + sf.Name()
@@ -314,7 +326,7 @@ func c17(c *core.Ctx, r *core.Report) {
 					if call, ok := in.(ssa.CallInstruction); ok {
 						t := an.Callee(call)
 						if t != nil && t.Pkg != nil && t.Pkg.Pkg.Path() == "sync/atomic" && t.Name() == "Store" {
-							if f := an.FieldOfAddr(call.Common().Args[0]); f != nil && f.Name() == "min" && an.Strip(call.Common().Args[0].(*ssa.FieldAddr).X) == ssa.Value(upd.Params[0]) {
+							if f := an.FieldOfAddr(call.Common().Args[0]); f != nil && f.Name() == "min" && an.Strip(accBase(call.Common().Args[0])) == ssa.Value(upd.Params[0]) {
 								store, val = in, call.Common().Args[1]
 							}
 						}
@@ -332,7 +344,15 @@ func c17(c *core.Ctx, r *core.Report) {
 					continue
 				}
 				xd, yd := an.D().Of(bo.X), an.D().Of(bo.Y)
-				if strings.HasSuffix(xd, "Load($i.min)") && yd == "0" && ((bo.Op == token.EQL && l.Val) || (bo.Op == token.NEQ && !l.Val)) {
+				ownMinLoad := strings.HasSuffix(xd, "Load($i.min)")
+				if lc, isCall := an.Strip(bo.X).(*ssa.Call); isCall {
+					if lt := an.Callee(lc); lt != nil && lt.Pkg != nil && lt.Pkg.Pkg.Path() == "sync/atomic" && lt.Name() == "Load" {
+						if f := an.FieldOfAddr(lc.Call.Args[0]); f != nil && f.Name() == "min" && an.Strip(accBase(lc.Call.Args[0])) == ssa.Value(upd.Params[0]) {
+							ownMinLoad = true
+						}
+					}
+				}
+				if ownMinLoad && yd == "0" && ((bo.Op == token.EQL && l.Val) || (bo.Op == token.NEQ && !l.Val)) {
 					unset = true
 				}
 				if stripAllocs(bo.X) == stripAllocs(val) && yd == "0" && ((bo.Op == token.GTR && l.Val) || (bo.Op == token.NEQ && l.Val) || (bo.Op == token.EQL && !l.Val)) {
